@@ -111,6 +111,7 @@ mainLoop:
 					addrHash = hrwOIDWrapper(addr.Object())
 				}
 				hrw.Sort(shards, addrHash)
+				verifReorder(shards, true)
 				for j := range shards {
 					if _, ok := shardMap[shards[j].ID().String()]; ok {
 						continue
